@@ -92,6 +92,15 @@ func c10Apply(cs c10Case) c10Res {
 		res.Aux, res.Aux2 = al.SimulateRogue(cs.F1, cs.F2)
 	case "bootstrap":
 		out, inPlace = al.BuildBootstrap(cs.F1), false
+	case "bootstrap2":
+		// a replicate is drawn, the alignment is edited in place without changing its shape (case folding),
+		// and a second replicate is drawn: its columns are columns of the alignment as it is now
+		al.BuildBootstrap(1)
+		al.ToLower()
+		out, inPlace = al.BuildBootstrap(cs.F1), false
+		res.Rows = readRows(out)
+		res.Len = out.Length()
+		return res
 	case "bootparts":
 		// bootstrap of a partitioned alignment, the way build seqboot --partition does it: each block
 		// is bootstrapped on its own and the replicates are concatenated
@@ -200,7 +209,14 @@ func c10Leaf(cs c10Case, res c10Res) (clause, desc string) {
 	if res.Input != nil && !sameRows(res.Input, in) {
 		return bad("input-modified", "the input alignment changed to %v", res.Input)
 	}
-	switch cs.Op {
+	op := cs.Op
+	if op == "bootstrap2" {
+		op = "bootstrap"
+		for i := range in {
+			in[i].Seq = strings.ToLower(in[i].Seq)
+		}
+	}
+	switch op {
 	case "shuffleseqs":
 		a, b := []string{}, []string{}
 		for i := range in {
@@ -1109,6 +1125,10 @@ func c10Cases(tier string) []c10Case {
 	}
 	add(c10Case{Op: "mutate", Seqs: []string{"L-"}, Alpha: align.AMINOACIDS, F1: 0.5})
 	add(c10Case{Op: "mutate", Seqs: []string{"L.", "*E"}, Alpha: align.AMINOACIDS, F1: 1})
+	// a second replicate after an in-place edit of the same shape
+	for _, sh := range [][2]int{{2, 2}, {2, 3}, {3, 2}} {
+		add(c10Case{Op: "bootstrap2", Seqs: c10Coded(sh[0], sh[1], nt), Alpha: nt, F1: 1})
+	}
 	// SampleSeqBag on plain sequence sets whose sequences have different lengths (longest first, shortest first)
 	for n := 2; n <= 4; n++ {
 		if n == 4 && !thorough {
@@ -1163,7 +1183,7 @@ func init() {
 	mc.Register(&mc.Prop{
 		ID:    "C10",
 		Level: "model_checking",
-		Rule: "for each randomised operation (ShuffleSequences, ShuffleSites, Swap, SimulateRogue, BuildBootstrap (also block-wise followed by Concat, as build seqboot --partition does), Sample, SampleSeqBag, RandSubAlign, Recombine, AddGaps, Mutate, Rarefy) on position-coded alignments of every shape n<=3 x L<=3 (4x4 for the support-checked operations in thorough; Swap of two pairs of rows on 4x3, 4x4, 5x3) and on all alignments n<=2,L<=2 over {A,C,-} for the content-sensitive ones, with all listed parameter values: EVERY sequence of RNG answers (rand.Intn: all n values; rand.Perm: all n! orders; rand.Float64: representatives on both sides of and at every threshold the code compares with) is executed; states/transitions are nodes/edges of the RNG choice trees; " +
+		Rule: "for each randomised operation (ShuffleSequences, ShuffleSites, Swap, SimulateRogue, BuildBootstrap (also block-wise followed by Concat, as build seqboot --partition does; also a second replicate drawn after the alignment was lower-cased in place), Sample, SampleSeqBag, RandSubAlign, Recombine, AddGaps, Mutate, Rarefy) on position-coded alignments of every shape n<=3 x L<=3 (4x4 for the support-checked operations in thorough; Swap of two pairs of rows on 4x3, 4x4, 5x3) and on all alignments n<=2,L<=2 over {A,C,-} for the content-sensitive ones, with all listed parameter values: EVERY sequence of RNG answers (rand.Intn: all n values; rand.Perm: all n! orders; rand.Float64: representatives on both sides of and at every threshold the code compares with) is executed; states/transitions are nodes/edges of the RNG choice trees; " +
 			"per leaf the operation's invariant, per tree reached-outcome set == admissible set where the statement pins the support down (row shuffle, bootstrap, sampling, site sampling, full site shuffle, substituted letters at rate 1); SampleSeqBag also on plain sequence sets of 2..3 (thorough 4) sequences of pairwise different lengths, longest first and shortest first; RandSubAlign (window and scattered, 1024 and all of 1100 columns), BuildBootstrap, Sample / SampleSeqBag (60 rows) and ShuffleSequences on a 64x1100 alignment with pairwise distinct columns (samples of at least 65536 cells) with GOMAXPROCS 2 and 4 under the controlled scheduler (one preemption, no data race, same sample under every interleaving) and the sample judged (original columns taken for all rows, distinct, contiguous for a window; original rows); seed replay with the real stream for seeds 0,1,42 twice and under map-order choices, on 3x3 and (for operations reporting name lists or pairing rows) 4x4 alignments. distinct_nontrivial = distinct (case, answer sequence) leaves whose invariant was checked.",
 		Assumptions: []string{
 			"rand.Intn(n) can return every value of [0,n) and rand.Perm every permutation (positive probability is decided as reachability over RNG answers)",
